@@ -5,8 +5,8 @@ REPO = os.environ.get("VERIF_REPO", "/repo")
 CACHE = os.path.join(VERIF, ".cache")
 FEATURE_CRATES = ["paseto-v1", "paseto-v2", "paseto-v3", "paseto-v4"]
 
-def feature_table(crate):
-    with open(os.path.join(REPO, crate, "Cargo.toml"), "rb") as f:
+def feature_table(crate, repo=None):
+    with open(os.path.join(repo or REPO, crate, "Cargo.toml"), "rb") as f:
         t = tomllib.load(f)
     return t.get("features", {})
 
@@ -23,9 +23,9 @@ def closure(table, feats):
                 st.append(y)
     return frozenset(seen)
 
-def distinct_closures(crate):
+def distinct_closures(crate, repo=None):
     """{closure frozenset: smallest generating feature list} over all subsets of the crate's non-default flags."""
-    table = feature_table(crate)
+    table = feature_table(crate, repo)
     flags = sorted(k for k in table if k != "default")
     out = {}
     for r in range(len(flags) + 1):
@@ -35,12 +35,12 @@ def distinct_closures(crate):
                 out[c] = list(sub)
     return table, flags, out
 
-def quick_sets(crate):
-    table, flags, cl = distinct_closures(crate)
+def quick_sets(crate, repo=None):
+    table, flags, cl = distinct_closures(crate, repo)
     sets = [[]] + [[f] for f in flags]
     return table, flags, cl, sets
 
-def cargo_check(crate, feats, default=False):
+def cargo_check(crate, feats, default=False, repo=None):
     env = dict(os.environ)
     env["CARGO_NET_OFFLINE"] = "true"
     env["CARGO_TARGET_DIR"] = os.path.join(CACHE, "target-feat", crate)
@@ -49,7 +49,7 @@ def cargo_check(crate, feats, default=False):
         cmd += ["--no-default-features"]
         if feats:
             cmd += ["--features", ",".join(feats)]
-    r = subprocess.run(cmd, cwd=REPO, env=env, capture_output=True, text=True)
+    r = subprocess.run(cmd, cwd=repo or REPO, env=env, capture_output=True, text=True)
     errs = [l for l in r.stderr.splitlines() if l.startswith("error")]
     return r.returncode, errs[:6], r.stderr[-1500:]
 
